@@ -27,8 +27,8 @@ import (
 	"github.com/dominant-strategies/go-quai/ethdb"
 	"github.com/dominant-strategies/go-quai/log"
 	"github.com/dominant-strategies/go-quai/params"
-	orderedmap "github.com/wk8/go-ordered-map/v2"
 	"github.com/sirupsen/logrus"
+	orderedmap "github.com/wk8/go-ordered-map/v2"
 	"google.golang.org/protobuf/proto"
 )
 
@@ -125,14 +125,14 @@ func VScaleParams(r VRegime) {
 // ---- node -----------------------------------------------------------------------------------
 
 type VNodeConfig struct {
-	Levels      int                                // 1 = zone only, 3 = prime+region+zone
-	NewDB       func(ctx int) ethdb.Database       // nil = rawdb.NewMemoryDatabase
-	ReuseDB     [3]ethdb.Database                  // restart on existing databases (ctx-indexed) when non-nil
-	IndexUtxos  bool                               // address->outpoint index (ChainConfig.IndexAddressUtxos)
-	Alloc       map[common.Address]*big.Int        // Quai accounts credited by block 1 (real GenAllocs path)
+	Levels       int                          // 1 = zone only, 3 = prime+region+zone
+	NewDB        func(ctx int) ethdb.Database // nil = rawdb.NewMemoryDatabase
+	ReuseDB      [3]ethdb.Database            // restart on existing databases (ctx-indexed) when non-nil
+	IndexUtxos   bool                         // address->outpoint index (ChainConfig.IndexAddressUtxos)
+	Alloc        map[common.Address]*big.Int  // Quai accounts credited by block 1 (real GenAllocs path)
 	QuaiCoinbase common.Address
 	QiCoinbase   common.Address
-	GasPrice    *big.Int
+	GasPrice     *big.Int
 }
 
 type VNode struct {
@@ -159,8 +159,10 @@ func vLocFor(ctx int) common.Location {
 
 type vSub struct{ sl *Slice }
 
-func (a vSub) AddPendingEtxs(p types.PendingEtxs) error             { return a.sl.AddPendingEtxs(p) }
-func (a vSub) AddPendingEtxsRollup(p types.PendingEtxsRollup) error { return a.sl.AddPendingEtxsRollup(p) }
+func (a vSub) AddPendingEtxs(p types.PendingEtxs) error { return a.sl.AddPendingEtxs(p) }
+func (a vSub) AddPendingEtxsRollup(p types.PendingEtxsRollup) error {
+	return a.sl.AddPendingEtxsRollup(p)
+}
 func (a vSub) RequestDomToAppendOrFetch(hash common.Hash, entropy *big.Int, order int) {
 }
 func (a vSub) Append(header *types.WorkObject, manifest types.BlockManifest, domTerminus common.Hash, domOrigin bool, newInboundEtxs types.Transactions) (types.Transactions, error) {
@@ -185,7 +187,9 @@ func (a vSub) NewGenesisPendingHeader(pendingHeader *types.WorkObject, domTermin
 func (a vSub) GetManifest(blockHash common.Hash) (types.BlockManifest, error) {
 	return a.sl.GetManifest(blockHash)
 }
-func (a vSub) GetPrimeBlock(blockHash common.Hash) *types.WorkObject { return a.sl.GetPrimeBlock(blockHash) }
+func (a vSub) GetPrimeBlock(blockHash common.Hash) *types.WorkObject {
+	return a.sl.GetPrimeBlock(blockHash)
+}
 func (a vSub) GetKQuaiAndUpdateBit(blockHash common.Hash) (*big.Int, uint8, error) {
 	return a.sl.GetKQuaiAndUpdateBit(blockHash)
 }
@@ -194,7 +198,12 @@ func (a vSub) ReceiveMinedHeader(header *types.WorkObject) error { return nil }
 var vChdir sync.Once
 
 func vMkSlice(cfg *VNodeConfig, ctx int, db ethdb.Database, fresh bool, logger *log.Logger) (*Slice, common.Hash, error) {
-	vChdir.Do(func() { os.Chdir(os.Getenv("VERIF_REPO")); if _, err := os.Stat("VERSION"); err != nil { os.Chdir("/repo") } })
+	vChdir.Do(func() {
+		os.Chdir(os.Getenv("VERIF_REPO"))
+		if _, err := os.Stat("VERSION"); err != nil {
+			os.Chdir("/repo")
+		}
+	})
 	loc := vLocFor(ctx)
 	cc := *params.ProgpowLocalChainConfig
 	cc.Location = loc
@@ -276,6 +285,19 @@ func VNewNode(cfg VNodeConfig) (*VNode, error) {
 		n.Sl[1].SetSubInterface(vSub{n.Sl[2]}, common.Location{0, 0})
 		n.Sl[1].SetDomInterface(vSub{n.Sl[0]})
 		n.Sl[2].SetDomInterface(vSub{n.Sl[1]})
+		// Slice.init of a fresh prime chain spawns `go NewGenesisPendingHeader`, which spins until the
+		// sub interface is wired and then drives the prime worker. Driving the same worker from the
+		// harness concurrently deadlocks on worker.mu (prepareWork re-enters RLock while pickCoinbases
+		// waits for Lock), so wait until that start-up goroutine has published its pending header.
+		if cfg.ReuseDB[0] == nil {
+			deadline := time.Now().Add(60 * time.Second)
+			for n.Sl[0].ReadBestPh() == nil {
+				if time.Now().After(deadline) {
+					return nil, errors.New("harness: prime genesis pending header never published")
+				}
+				time.Sleep(100 * time.Microsecond)
+			}
+		}
 	}
 	return n, nil
 }
@@ -323,7 +345,7 @@ type VBuildOpts struct {
 	// CoinbaseData overrides the work-object header's data (lock byte [+ contract [+ delegate]])
 	CoinbaseData []byte
 	Coinbase     *common.Address
-	Salt         int64                       // distinguishes sibling blocks
+	Salt         int64                      // distinguishes sibling blocks
 	PreSeal      func(wo *types.WorkObject) // evil-miner hook: mutate the assembled block before sealing
 	NoReseal     bool
 }
